@@ -12,6 +12,10 @@ MANIFEST = dict(
          '(default_read, default_read_generated) an unset defaulted field reads as exactly that value and the generated attribute is '
          'never nullable; (default_assign_partial) assigning it back is accepted; (default_float_coerced) literal Float fields store a '
          'float; (default_bounds_agree) compile-time and runtime width tables, both extracted by the translator, coincide; '
+         '(checkDefault_no_crash, example_check_no_crash) since the frontend repairs the compile-time checks of a default and of '
+         'an example end in acceptance or in a spec error for every type, literal and example value, '
+         '(default_refused_composite, default_union_literal_refused) a default on a List / Map / struct field and a literal on a '
+         'union field being spec errors; '
          '(example_roundtrip_partial, example_roundtrip_wire_partial, example_union_roundtrip_partial) the document computed for a '
          'reference-free example over scalar members decodes strictly (json_compat_obj_decode) and json_compat_obj_encode gives its '
          'members back. The full statements are FALSE of the code; the excluded cases are proved as witnesses on the model '
@@ -24,17 +28,24 @@ MANIFEST = dict(
          'unions of structs, inherited fields are covered by the oracle only).',
     note='Trusted: Lean kernel, translator, correspondence generators, CPython re / float() / strptime / base64 as external calls '
          '(tables computed by the harness with the reference libraries). Hypotheses the proofs need and the driver evaluates on every '
-         'real environment: unionsAgree / envWF / envWFX. Not judged: the implicit example of a catch-all tag; specs for which '
+         'real environment: unionsAgree / envWF / envWFX / tyKnown. Not judged: the implicit example of a catch-all tag and, by '
+         'the same token, an example document that embeds a catch-all tag because the spec writes it explicitly (`f = other`): '
+         'it is what a receiver may meet from a newer sender, never what a sender of this spec produces, and the strict decoder '
+         'refuses it by design (counted in example.embeds_catch_all_not_judged, seed corpus/C10/example-embeds-catch-all.json); '
+         'specs for which '
          'python_types cannot produce an importable module for reasons unrelated to defaults (counted); key order of example '
          'documents (JSON objects). Examples of types with members omitted for a caller class are decoded and encoded with every '
-         'declared caller permission. Crash outcomes of the compiler on defaults / examples (C03 territory) are reproduced by the '
-         'model as they are, not judged here.',
+         'declared caller permission. An example whose text is a non-canonical spelling of its value (`true` for a number, an '
+         'integer that is not a float, "2020-1-5" for %Y-%m-%d, base64 with stray bits) IS judged: the statement says "encodes '
+         'back to the same document". corpus/C10/*.json (one minimal spec per listed finding plus the inputs the frontend '
+         'repairs made legal) is evaluated with the direct oracle before the random part of every run.',
     technique='Lean 4 proof + translator-extracted tables + differential correspondence + direct oracle on generated classes',
     design='5 C10')
 
 
 def run(ck):
     ck.build_and_audit()
+    de.suite_corpus(ck)
     de.suite_default_grid(ck)
     de.suite_example_grid(ck)
     de.suite_flat_examples(ck, ck.scale(150, 2500))
@@ -47,9 +58,10 @@ def run(ck):
         '(default values, validator verdicts, decoding and encoding of examples)',
         'string lengths are counted in code points on both sides; inputs of the grid are BMP text without surrogates',
     ])
-    ck.note('crash outcomes of the compiler (NotImplementedError for defaults on List / Map / struct fields, TypeError / OverflowError '
-            'from float(), AssertionError in Union.check, ValueError in Map.check_example) are reproduced by the model as they are '
-            'in /repo today; they are judged by C03, not here')
+    ck.note('the former crash sites of the compiler on defaults / examples (NotImplementedError, TypeError / OverflowError from '
+            'float(), AssertionError in Union.check, ValueError in Map.check_example, TypeError in Union._compute_example) are '
+            'spec errors or accepted inputs since the repairs of notes/c03_fix_notes.md; the model follows and any exception other '
+            'than InvalidSpec escaping the compiler now shows as a correspondence disagreement (the model never answers crash)')
     return ck.finish(rule=de.RULE)
 
 
